@@ -7,6 +7,7 @@ addresses inside the configured range of the same family."  — for all IPv4/IPv
 prefixes of every length and ports.
 -/
 import Nebula.Lemmas.CalcRemote
+import Nebula.Lemmas.CalcRemoteTie
 
 namespace Nebula.Props.C48
 open Nebula.CalcRemote Nebula.Spec.CalcRemote Nebula.Net Nebula.Lemmas.CalcRemote
@@ -44,6 +45,14 @@ theorem new_fields (cidr maskCidr : Prefix) (port : Int) (c : CR)
       cases h
       refine ⟨rfl, rfl, ?_, fam_eq_of_bits (by simpa using h1)⟩
       simp only []; omega
+
+/-- Tie to the source: the `uint32` expression `ApplyV4` returns, regenerated from calculated_remote.go, is the
+model's `combine 32` (`(maskAddr & mask) | (addr & ^mask)`) on all 32-bit words. An edit of the Go expression
+changes the regenerated definition and this theorem no longer checks. -/
+theorem applyV4_is_translated (ma mask ia : Nat) (h1 : ma < 2 ^ 32) (h2 : mask < 2 ^ 32) (h3 : ia < 2 ^ 32) :
+    (Gen.calcremote_ApplyV4 (BitVec.ofNat 32 ma) (BitVec.ofNat 32 mask) (BitVec.ofNat 32 ia)).toNat
+      = combine 32 ma mask ia :=
+  Nebula.Lemmas.CalcRemoteTie.applyV4_eq ma mask ia h1 h2 h3
 
 /-- IPv4: for every range, every well-formed IPv4 mask prefix, every port and every IPv4 overlay address,
 `ApplyV4` does not panic and returns exactly the arithmetic splice (top `len` bits of the mask address,
